@@ -155,6 +155,27 @@ def run_case(case):
             if len(cfg.observables) != len(kinds):
                 return result(False, sig="observables-lost", msg=f"{kinds}: config holds {len(cfg.observables)} observables", outcome="viol")
             outs.append(int(cfg.optimize_qubit_ordering))
+            # histories: configurations derived from the first one (the very same observable objects): built again, changed, serialised
+            unperm = bool(set(kinds) & UNPERMUTABLE)
+            derived = [
+                ("rebuilt from cfg.observables", lambda: m.MPSConfig(observables=cfg.observables, optimize_qubit_ordering=case["ordering"], **quiet), expect),
+                ("with_changes(optimize_qubit_ordering=True)", lambda: cfg.with_changes(optimize_qubit_ordering=True), not unperm),
+                ("with_changes(dt=7)", lambda: cfg.with_changes(dt=7), expect),
+                ("abstract-repr round trip", lambda: m.MPSConfig.from_abstract_repr(cfg.to_abstract_repr()), expect),
+            ]
+            for how, build, want in derived:
+                try:
+                    c2 = build()
+                except Exception:
+                    continue  # e.g. pulser refuses to serialise a state observable: no configuration, nothing to check
+                n += 1
+                if bool(c2.optimize_qubit_ordering) != want:
+                    return result(
+                        False,
+                        sig=f"ordering|derived|{'+'.join(sorted(set(kinds) & UNPERMUTABLE)) or 'permutable-only'}",
+                        msg=f"observables {kinds} (tag_suffix={case['suffix']}), first config requested ordering={case['ordering']}; configuration derived by '{how}' has optimize_qubit_ordering={c2.optimize_qubit_ordering}, expected {want}",
+                        outcome="viol",
+                    )
         return result(True, outcome=outs, states=n, transitions=n, nontrivial=True)
     # dmrg x noise
     import dataclasses
@@ -176,9 +197,22 @@ def run_case(case):
     seq.declare_channel("ch", "rydberg_global")
     seq.add(pulser.Pulse.ConstantPulse(40, 3.0, 0.5, 0.0), "ch")
     outs = []
-    for route in ("run", "create_impl"):
+    for route, how in itertools.product(("run", "create_impl"), ("enum", "string", "round-trip", "with_changes")):
         try:
-            cfg = m.MPSConfig(solver=m.Solver.DMRG, observables=[m.Occupation(evaluation_times=[1.0])], **kw, **quiet)
+            if how == "enum":
+                cfg = m.MPSConfig(solver=m.Solver.DMRG, observables=[m.Occupation(evaluation_times=[1.0])], **kw, **quiet)
+            elif how == "string":  # the documented spelling
+                cfg = m.MPSConfig(solver="dmrg", observables=[m.Occupation(evaluation_times=[1.0])], **kw, **quiet)
+            elif how == "with_changes":
+                cfg = m.MPSConfig(observables=[m.Occupation(evaluation_times=[1.0])], **kw, **quiet).with_changes(solver=m.Solver.DMRG)
+            else:
+                try:
+                    cfg = m.MPSConfig.from_abstract_repr(m.MPSConfig(solver=m.Solver.DMRG, observables=[m.Occupation(evaluation_times=[1.0])], **kw, **quiet).to_abstract_repr())
+                except Exception:
+                    outs.append("no-round-trip")
+                    continue
+                if cfg.solver != m.Solver.DMRG:
+                    return result(False, sig="solver-lost-in-round-trip", msg=f"solver after an abstract-repr round trip: {cfg.solver!r}", outcome="viol")
             if route == "run":
                 m.MPSBackend(seq, config=cfg).run()
             else:
@@ -196,8 +230,8 @@ def run_case(case):
                 create_impl(data, cfg)
             return result(
                 False,
-                sig=f"dmrg-accepts-noise|{case['noise']}|{case['where']}|{route}",
-                msg=f"DMRG solver with {case['noise']} noise from the {case['where']} did not refuse ({route})",
+                sig=f"dmrg-accepts-noise|{case['noise']}|{case['where']}|{route}" + ("" if how == "enum" else f"|{how}"),
+                msg=f"DMRG solver (given as {how}) with {case['noise']} noise from the {case['where']} did not refuse ({route})",
                 outcome="viol",
             )
         except (NotImplementedError, ValueError, AssertionError) as e:
